@@ -250,6 +250,9 @@ func (p *pool) exec(op string) (res string) {
 
 var hung = false
 
+// per-case deadline of the watchdog (shorter in --replay mode, where single short cases are re-run by the shrinker)
+var deadline = 10 * time.Second
+
 // runCase executes one case under a watchdog: a stuck op is reported as HANG and ends the run.
 func runCase(w *tr.W, head string, ops []string) {
 	hf := strings.Fields(head)
@@ -277,7 +280,7 @@ func runCase(w *tr.W, head string, ops []string) {
 			w.Op(s.op, s.res)
 		}
 		w.End()
-	case <-time.After(20 * time.Second):
+	case <-time.After(deadline):
 		n := len(results)
 		for _, s := range results[:n] {
 			w.Op(s.op, s.res)
@@ -569,6 +572,7 @@ func main() {
 	w := tr.NewW()
 	defer w.Flush()
 	if *replay != "" {
+		deadline = 2 * time.Second
 		cs, err := tr.ReadCases(*replay)
 		if err != nil {
 			fmt.Fprintln(os.Stderr, err)
